@@ -316,6 +316,32 @@ def case_query_mixed(ctx, s: Subject):
              features=s.features + (f"quoted={quoted}",), spec_ok="err" in real)
 
 
+def case_query_mixed_arith(ctx):
+    """layers mixed INSIDE a comparison or an arithmetic sub-expression (`nest.f + x > 3`, `nest.f > x`): refused like a
+    mix across `and` / `or` — also on frames where pandas could broadcast the base column over the records by label
+    (unique labels, a record in every row)"""
+    rng = ctx.rng
+    ty = gen.rand_ty(rng, types=["int64", "double"])
+    broadcastable = rng.random() < 0.6
+    kw = dict(p_missing=0.0, p_empty=0.0, p_null=0.0, p_nan=0.0) if broadcastable else {}
+    n = rng.randint(1, 5)
+    content = {"ty": ty, "rows": [gen.rand_row(rng, ty, **kw) for _ in range(n)]}
+    labels = gen.rand_labels(rng, n, pattern=rng.choice(["unique_sorted", "unique_unsorted", "range"]) if broadcastable else None)
+    s = Subject(ctx, content=content, allow_hidden=False)
+    nf, labels, other = mk_nf(ctx, s, labels=labels)
+    f = rng.choice([nm for nm, _ in ty])
+    c = rng.randint(-3, 6)
+    forms = [f"nest.{f} + x > {c}", f"x + nest.{f} > {c}", f"nest.{f} > x", f"id < nest.{f}", f"2 * nest.{f} - x > {c}",
+             f"(nest.{f} - x > {c}) & (nest.{f} < 5)", f"nest.{f} * id == {c}", f"-(nest.{f} + id) < {c}"]
+    if usable_ty(other.ty) and any(t in ("int64", "double") for _, t in other.ty):
+        g = next(nm for nm, t in other.ty if t in ("int64", "double"))
+        forms += [f"nest.{f} + other.{g} > {c}", f"nest.{f} < other.{g}"]
+    es = rng.choice(forms)
+    real = call_real(lambda: frame_view(nf.query(es)))
+    ctx.case("query.mixed", {**s.desc(), "labels": labels, "expr": es}, real, None, {"err": "ValueError"}, hyp=s.hyp,
+             features=s.features + ("mixed_inside_term", f"broadcastable={broadcastable}"), spec_ok="err" in real)
+
+
 def case_query_flat(ctx, s: Subject):
     """the accessor variant: series.nest.query_flat"""
     rng = ctx.rng
@@ -972,21 +998,23 @@ def case_from_lists(ctx, s: Subject):
     df = pd.DataFrame(d) if plain else NestedFrame(d)
     df.index = pd.Index(labels)
     names = [nm for nm, _ in s.ty]
+    # the name of the new column: any legal column name, also ones pandas uses as parameter or index names
+    nname = rng.choice(["n", "n", "self", "index", "my nest", "data", "base"])
 
     def run():
         if which == "from_lists":
-            return frame_view(NestedFrame.from_lists(df, base_columns=["id"], list_columns=names, name="n"))
-        return frame_view(df.nest_lists("n", names))
+            return frame_view(NestedFrame.from_lists(df, base_columns=["id"], list_columns=names, name=nname))
+        return frame_view(df.nest_lists(nname, names))
     real = call_real(run)
     exp = {"index": [export.label(l) for l in labels], "cls": "NestedFrame", "cols": [
-        ["id", "base", "int64", list(range(n))], ["n", "nest", {"ty": s.ty, "rows": weak_rows(rows)}]]}
+        ["id", "base", "int64", list(range(n))], [nname, "nest", {"ty": s.ty, "rows": weak_rows(rows)}]]}
     # the model packs the physical list arrays (every column in its own chunking) as `pack_lists` does
     lists_json = []
     for nm, t in s.ty:
         col = pa.chunked_array(df[nm].array._pa_array) if not isinstance(df[nm].array._pa_array, pa.ChunkedArray) else df[nm].array._pa_array
         lists_json.append([nm, t, [export.export_list(ch, t) for ch in col.iterchunks()]])
-    ans = ctx.driver.call("frame.fromLists", index=labels, base=[["id", "int64", list(range(n))]], lists=lists_json, name="n")
-    ctx.case(which, {**s.desc(), "labels": labels, "chunked": chunked}, real, norm_frame(ans["model"]), {"ok": exp}, hyp=s.hyp,
+    ans = ctx.driver.call("frame.fromLists", index=labels, base=[["id", "int64", list(range(n))]], lists=lists_json, name=nname)
+    ctx.case(which, {**s.desc(), "labels": labels, "chunked": chunked, "name": nname}, real, norm_frame(ans["model"]), {"ok": exp}, hyp=s.hyp,
              features=(which, f"dup={len(set(map(str, labels))) < n}", f"chunked={chunked}", f"plain={plain}"),
              nontrivial=s.nontrivial())
 
@@ -1037,7 +1065,12 @@ def case_new_nest_setitem(ctx):
 def case_reduce(ctx, s: Subject):
     from .ops_meta import npval
     rng = ctx.rng
-    nf, labels, other = mk_nf(ctx, s, with_other=False)
+    shape = rng.choice(["scalar", "tuple", "dict", "dotted", "dotted2"])
+    own_labels = None
+    if shape in ("dict", "dotted") and rng.random() < 0.25:
+        # row labels that are also the names of the outputs of the function (labels are data, not column names)
+        own_labels = [rng.choice(["row", "count"] if shape == "dict" else ["row"]) for _ in s.content["rows"]]
+    nf, labels, other = mk_nf(ctx, s, with_other=False, labels=own_labels)
     rows = s.content["rows"]
     names = [n for n, _ in s.ty]
     cols = []
@@ -1051,7 +1084,8 @@ def case_reduce(ctx, s: Subject):
     # verbatim — also a string that happens to spell a column or a field path
     extra = rng.choice([(), (7,), (7, "k"), (7, "id"), (2.5, f"nest.{names[0]}"), ("k", "x"), (7, "x", "k"), (None, "id")])
     kwargs = rng.choice([{}, {"scale": 2}])
-    shape = rng.choice(["scalar", "tuple", "dict", "dotted", "dotted2"])
+    # the name of the output nest: any legal column name, also ones pandas uses as parameter or index names
+    out = rng.choice(["out", "out", "self", "index", "my out", "class", "base", "data"])
     log = []
 
     def fun(*a, **kw):
@@ -1069,7 +1103,7 @@ def case_reduce(ctx, s: Subject):
             # two output nests whose keys are interleaved (and a scalar in between)
             return {"out.v": np.arange(k, dtype=np.int64) + i, "res.u": np.arange(k, dtype=np.int64) * 2, "row": i,
                     "out.w": np.full(k, float(i))}
-        return {"row": i, "out.v": np.arange(k, dtype=np.int64) + i, "out.w": np.full(k, float(i))}
+        return {"row": i, f"{out}.v": np.arange(k, dtype=np.int64) + i, f"{out}.w": np.full(k, float(i))}
     res = call_real(lambda: frame_view(nf.reduce(fun, *args, *extra, **kwargs)))
     # expected call log from the content
     tymap = dict(map(tuple, s.ty))
@@ -1124,8 +1158,8 @@ def case_reduce(ctx, s: Subject):
                        and colmap["res"][2]["rows"] == exp_res)
         else:
             exp_rows = [[["v", [j + i for j in range(k[i])]], ["w", [{"f": 2 * i}] * k[i]]] for i in range(n)]
-            spec_ok = (list(colmap) == ["row", "out"] and colmap["row"][3] == list(range(n))
-                       and colmap["out"][1] == "nest" and colmap["out"][2]["rows"] == exp_rows)
+            spec_ok = (list(colmap) == ["row", out] and colmap["row"][3] == list(range(n))
+                       and colmap[out][1] == "nest" and colmap[out][2]["rows"] == exp_rows)
         spec_ok = bool(spec_ok and r["index"] == [export.label(l) for l in labels] and r["cls"] == "NestedFrame")
     m = ans["model"]
     model_log = None
@@ -1137,9 +1171,9 @@ def case_reduce(ctx, s: Subject):
         agree = model_log == [[(x if l is None else x) for x, (l, c) in zip(gl["cols"], cols)] for gl in got_log]
     else:
         agree = "err" in res
-    ctx.case("reduce", {**s.desc(), "labels": labels, "args": args, "extra": list(extra), "kwargs": kwargs, "shape": shape},
+    ctx.case("reduce", {**s.desc(), "labels": labels, "args": args, "extra": list(extra), "kwargs": kwargs, "shape": shape, "out": out},
              {"calls": got_log, "res": res if "err" in res else "ok"}, None, None, hyp=s.hyp,
-             features=s.features + (shape, f"ncols={len(cols)}", f"dup={len(set(map(str, labels))) < n}"),
+             features=s.features + (shape, f"ncols={len(cols)}", f"dup={len(set(map(str, labels))) < n}", f"labels_are_outputs={own_labels is not None}"),
              spec_ok=bool(spec_ok), nontrivial=s.nontrivial(), extra={"expected_calls": exp_log})
     if not agree:
         ctx.case("reduce.calls_vs_model", {**s.desc(), "args": args}, {"ok": got_log}, {"ok": model_log}, None, hyp=s.hyp)
@@ -1249,7 +1283,9 @@ def case_reduce_after_inplace_field(ctx, s: Subject):
     total = sum(lens)
     _ = nf.dtypes, nf.nested_columns, nf.all_columns, repr(nf)      # what a user does before
     vals = [1000 + k for k in range(total)]
-    how = rng.choice(["flat", "list"])
+    how = rng.choice(["flat", "list", "frame_setitem", "frame_setitem"])
+    if how == "frame_setitem" and lens != [1] * len(lens) and nf["nest"].nest.get_flat_index().equals(nf.index):
+        how = "flat"     # repeated labels that make the records' labels spell the frame's index: K5 (a C06 finding)
     log = []
 
     def fun(*a):
@@ -1258,7 +1294,10 @@ def case_reduce_after_inplace_field(ctx, s: Subject):
 
     def run():
         arr = nf["nest"].array
-        if how == "flat":
+        if how == "frame_setitem":
+            # computed element by element from the flat view of the nest (one value per record, labelled like the records)
+            nf["nest.zz_new"] = pd.Series(np.array(vals, dtype=np.int64), index=nf["nest"].nest.get_flat_index())
+        elif how == "flat":
             arr.set_flat_field("zz_new", np.array(vals, dtype=np.int64))
         else:
             ls, k = [], 0
